@@ -71,9 +71,14 @@ def m_conservation(ctx, pre, act, obs, post):
     pp = ctx['pp']
     sreg, sshape = e1.region(pre, act['src'])
     dreg, dshape = e1.region(pre, act['dst'])
-    if sreg is None or dreg is None:
-        return
-    rel = relation(sreg, dreg)
+    unjudged_region = sreg is None or dreg is None
+    if unjudged_region:
+        # which wells such a selector addresses is not judged (a list that names a well twice, an undocumented form): but a
+        # call that RETURNS conserves every substance over the whole world whatever it addressed
+        sreg, dreg = sreg or [], dreg or []
+        rel = 'unjudged-region'
+    else:
+        rel = relation(sreg, dreg)
     feat = f"src={form_of(pre, act['src'])},dst={form_of(pre, act['dst'])},rel={rel},unit={qbase(act['q'])}"
     vs = []
     upre, upost = dict(all_units(pre)), dict(all_units(post))
@@ -84,7 +89,7 @@ def m_conservation(ctx, pre, act, obs, post):
     idents = set()
     for d in ipre + ipost:
         idents.update(d)
-    n_touch = len(sreg) + len(dreg)
+    n_touch = (len(sreg) + len(dreg)) if not unjudged_region else len(upre)
     for s in sorted(idents, key=repr):
         before = math.fsum(d.get(s, 0.0) for d in ipre)
         after = math.fsum(d.get(s, 0.0) for d in ipost)
@@ -94,6 +99,8 @@ def m_conservation(ctx, pre, act, obs, post):
                         f"{e1.act_str(act)}: total {s[0]}{' ' + repr(s[1:]) if twin else ''} over all objects changed from "
                         f"{before!r} to {after!r} (storage units)", ctx['case'], before, after))
             break
+    if unjudged_region:
+        return vs
     touched = set(sreg) | set(dreg)
     for addr, c in upre.items():
         if addr in touched:
